@@ -602,6 +602,9 @@ def run(prog, rep, tier):
     rep.rule('VALUE-dead', 'no result of a call is bound to a local that is never read (reaching '
              'definitions)')
     check_dead_computations(prog, rep, ['tenpy/models/model.py', 'tenpy/networks/terms.py'])
+    from ..flow import check_undefined_attrs
+    rep.rule('ATTR-defined', 'every self.X read names an attribute bound somewhere in the class family')
+    check_undefined_attrs(prog, rep, ['tenpy/models/model.py', 'tenpy/networks/terms.py'])
     return rep.finish(
         level='other',
         explanation='plus_hc / explicit_plus_hc protocol decided for %d sibling add_* methods of '
